@@ -42,6 +42,8 @@ def PT.hasF : PT → Bool
 def varOf (s : String) : Option PT :=
   match s.toList with
   | [t, c] => if (t == 'z' || t == 'q' || t == 'f') ∧ '0' ≤ c ∧ c ≤ '9' then some (.var t (c.toNat - '0'.toNat)) else none
+  | ['q', t, c] =>        -- `qnK` / `qdK`: accessor sub-objects `Q[K].get_num()` / `Q[K].get_den()` (kept as `.var 'n' K` / `.var 'd' K`)
+    if (t == 'n' || t == 'd') ∧ '0' ≤ c ∧ c ≤ '9' then some (.var t (c.toNat - '0'.toNat)) else none
   | _ => none
 
 def isUn (s : String) : Bool := ["pos", "neg", "com", "abs", "sqrt", "trunc", "floor", "ceil"].contains s
@@ -92,6 +94,8 @@ end
 def elabE : PT → Option E
   | .var 'z' i => some (.zv i)
   | .var 'q' i => some (.qv i)
+  | .var 'n' i => some (.zn i)
+  | .var 'd' i => some (.zd i)
   | .var _ _ => none
   | .un o a => do let o ← Mpir.Ops.Cxx.unOf o; let a ← elabE a; pure (.un o a)
   | .bin o a b => do let o ← Mpir.Ops.Cxx.binOf o; let a ← elabE a; let b ← elabE b; pure (.bin o a b)
